@@ -34,4 +34,4 @@ MANIFEST_TEXT['C12'] = dict(
     note='Trusted: Coq kernel + vm_compute, extraction, Go harness, the AST translator for the lock table. The generic step "atomic bodies => linearizable" is argued in DESIGN.md (M4) and exercised by the recorded-history search, not yet a Coq theorem. Endpoint-level "send on full queue is inert" is covered with C01.',
     technique='Coq proof (induction over operation sequences) + generated lock table + differential correspondence incl. linearizability search')
 
-PROPS['M1C'] = Prop('M1C', harness='m1c', entries=['m1c'], props_file='theories/Props/C20.v', quick_n=300, thorough_n=5000, design_ref='scratch')
+PROPS['M1C'] = Prop('M1C', harness='m1c', entries=['m1c', 'm1c_h'], props_file='theories/Props/C20.v', quick_n=300, thorough_n=5000, design_ref='scratch')
